@@ -97,6 +97,35 @@ fn check_load(oi: usize, si: usize, mode: u8, thorough: bool) -> Option<(String,
     match r { Ok(Ok(())) => None, Ok(Err(e)) => Some(e), Err(p) => Some((format!("panic:{}", panic_site(&p)), format!("{}: {p}", c.desc))) }
 }
 
+/// Life cycle of the object file value: members of the link family that were already loaded into some simulator (which: bit 0 = left,
+/// bit 1 = right operand; bit 2: the loaded value's clone is linked instead of the value itself) are linked, and the result is loaded.
+fn check_loaded_then_linked(i: usize, j: usize, which: u8) -> Option<(String, String)> {
+    let lo = crate::gen::objs::link_objs();
+    let (da, a, db, b) = (&lo[i].0, lo[i].2.clone(), &lo[j].0, lo[j].2.clone());
+    let r = catch(|| -> Result<bool, (String, String)> {
+        let mut scratch = Simulator::new(SimFlags { machine_init: STRATS[0], ..Default::default() });
+        if which & 1 != 0 { let _ = scratch.load_obj_file(&a); }
+        if which & 2 != 0 { let _ = scratch.load_obj_file(&b); }
+        let (a, b) = if which & 4 != 0 { (a.clone(), b.clone()) } else { (a, b) };
+        let Ok(l) = lc3_ensemble::asm::ObjectFile::link(a, b) else { return Ok(false) };
+        if l.symbol_table().map(|s| s.label_iter().any(|(_, _, e)| e)).unwrap_or(false) { return Ok(false); }
+        let what = format!("link({da}, {db}) after {} had been loaded into another simulator", match which & 3 { 1 => "the left operand", 2 => "the right operand", _ => "both operands" });
+        let mut sim = Simulator::new(SimFlags { machine_init: STRATS[0], ..Default::default() });
+        let before: Vec<Word> = (0..=0xFFFFu16).map(|x| sim.mem[x]).collect();
+        sim.load_obj_file(&l).map_err(|e| ("load-fails".to_string(), format!("{what}: {e:?}")))?;
+        let img: BTreeMap<u16, Option<u16>> = l.addr_iter().collect();
+        for x in 0..=0xFFFFu16 {
+            let n = sim.mem[x];
+            match img.get(&x) {
+                Some(Some(v)) => if n.get() != *v || !n.is_init() { return Err(("initialized-word".into(), format!("{what}: mem[x{x:04X}] = {n:?} after loading the result, the file has x{v:04X}"))); },
+                Some(None) => if n.is_init() { return Err(("reserved-word-initialized".into(), format!("{what}: reserved word mem[x{x:04X}] is marked initialized"))); },
+                None => if n != before[x as usize] { return Err(("other-word-changed".into(), format!("{what}: mem[x{x:04X}] changed though the file does not define it"))); },
+            }
+        }
+        Ok(true)
+    });
+    match r { Ok(Ok(_)) => None, Ok(Err(e)) => Some(e), Err(p) => Some((format!("panic:{}", panic_site(&p)), format!("link of loaded members {i},{j}: {p}"))) }
+}
 pub fn run(ctx: &Ctx) -> Report {
     let mut rep = Report::new("fresh simulators under Known(0), Known(xA5A5), Seeded(7), Seeded(u64::MAX), Unseeded: OS image (subject's os.asm through the separately checked assembler) at its addresses, xFE00-xFFFF zero; every object of the family without unresolved externals, plus read-only object files whose block wraps from xFFFx to x0000 (blocks at x0000, ending at xFE00, .blkw regions, multi-block, linked) x strategy x {fresh, loaded twice, after 10 executed steps}: full 64K before/after comparison: initialized words set and marked initialized, reserved words marked uninitialized, every other word, all registers, PC and PSR bit-identical. non-trivial = object with at least one block");
     for si in 0..STRATS.len() { rep.acc.evals += 1; rep.acc.transitions += 1; if let Some((sig, d)) = check_fresh(si) { rep.acc.violation(sig, format!("fresh:{si}"), d); } }
@@ -121,12 +150,20 @@ pub fn run(ctx: &Ctx) -> Report {
         if let Some((sig, d)) = check_load(oi, si, mode, ctx.thorough()) { acc.violation(sig, format!("load:{}:{oi}:{si}:{mode}", ctx.thorough() as u8), d); }
     });
     rep.absorb(r);
+    let nl = crate::gen::objs::link_objs().len() as u64;
+    let r = sweep(ctx, nl * nl * 6, 8, |k, acc| {
+        let (i, j, which) = ((k / (nl * 6)) as usize, (k / 6 % nl) as usize, [1u8, 2, 3, 5, 6, 7][(k % 6) as usize]);
+        acc.evals += 1; acc.transitions += 3; acc.nontrivial += 1; acc.count("links_of_already_loaded_files", 1);
+        if let Some((sig, d)) = check_loaded_then_linked(i, j, which) { acc.violation(format!("loaded-then-linked:{sig}"), format!("ll:{i}:{j}:{which}"), d); }
+    });
+    rep.absorb(r);
     rep.require(nw >= 6, "object files with wrapping blocks could be read back");
     rep.bound("objects", Json::i(n)); rep.bound("strategies", Json::i(5)); rep.bound("modes", Json::s("fresh, loaded twice, after execution"));
     rep.assume("the OS image is obtained by assembling /repo/src/os.asm with the subject's assembler, which C01 checks separately");
     rep
 }
 pub fn replay(case: &str) -> Option<String> {
+    if let Some(r) = case.strip_prefix("ll:") { let p: Vec<usize> = r.split(':').filter_map(|x| x.parse().ok()).collect(); return check_loaded_then_linked(*p.first()?, *p.get(1)?, *p.get(2)? as u8).map(|x| x.1); }
     let p: Vec<&str> = case.split(':').collect();
     match *p.first()? {
         "fresh" => check_fresh(p.get(1)?.parse().ok()?).map(|x| x.1),
